@@ -39,8 +39,9 @@ ASSUMPTIONS = [
     'class, Union member; the document denotes A, B, C or S',
     'chains interrupted by an unregistered class (where the texts do not pin '
     'whether hooks above the break run) are outside the bound',
-    'mapping-style classes only (Enum / string-like representers use '
-    'hasattr and are outside the property\'s wording)',
+    'classes written as scalars (UserString / Enum hierarchies) are '
+    'covered for _yatiml_savorize and _yatiml_sweeten by the scalar_* '
+    'conditions; _yatiml_recognize of such classes is outside the bound',
 ]
 
 TRACE = []
@@ -330,6 +331,180 @@ def savorize_reach(fa: bool, fb: bool, fc: bool, fs: bool, fm: bool,
     return not (ok and fa and fb and fc)
 
 
+
+# ------------------------------------------- string-like and enum classes
+# The same rule for classes that are written as a scalar: a UserString
+# hierarchy A <- B <- C(+ unregistered mix-in M), sibling S(A); an Enum
+# hierarchy of member-less bases A <- B with C(M, B) and S(A) carrying the
+# members.  (docs, "Customising recognition": hooks are used only for the
+# class on which they are defined; "the same goes for _yatiml_savorize() and
+# _yatiml_sweeten()".)
+import enum                                     # noqa: E402
+from collections import UserString              # noqa: E402
+
+
+def _mk_scalar_hook(kind, owner_name):
+    def hook(cls, node):
+        TRACE.append((kind, owner_name, cls.__name__))
+    hook.__name__ = '_yatiml_' + kind
+    return classmethod(hook)
+
+
+def make_scalar_classes(flavour, kind, fa, fb, fc, fs, fm):
+    if flavour == 'str':
+        class A(UserString):
+            pass
+
+        class B(A):
+            pass
+
+        class M:
+            pass
+
+        class C(B, M):
+            pass
+
+        class S(A):
+            pass
+    else:
+        class A(enum.Enum):
+            pass
+
+        class B(A):
+            pass
+
+        class M:
+            pass
+
+        class C(M, B):
+            c1 = 1
+            c2 = 2
+
+        class S(A):
+            s1 = 1
+    for cls, flag in ((A, fa), (B, fb), (C, fc), (S, fs)):
+        if flag:
+            setattr(cls, '_yatiml_' + kind,
+                    _mk_scalar_hook(kind, cls.__name__))
+    if fm:
+        for k in ('savorize', 'sweeten', 'recognize'):
+            setattr(M, '_yatiml_' + k, _mk_scalar_hook(k, 'M'))
+    return A, B, C, S, M
+
+
+_SCALAR_FAMILIES = {}
+for _fl in ('str', 'enum'):
+    for _k in ('savorize', 'sweeten'):
+        for _m in range(32):
+            _b = [bool(_m >> i & 1) for i in range(5)]
+            _cl = make_scalar_classes(_fl, _k, *_b)
+            _A, _B, _C, _S, _M = _cl
+            _fam = {'classes': _cl}
+            if _k == 'sweeten':
+                _fam['dumps'] = yatiml.dumps_function(_A, _B, _C, _S)
+            else:
+                # every class of such a family accepts every string (enum
+                # recognition does not look at the member names either), so
+                # the document type names the leaf class
+                _fam['load'] = [[
+                    yatiml.load_function(_dt, *[c for c in (_A, _B, _C, _S)
+                                                if c is not _dt])
+                    for _dt in (_L, List[_L], Dict[str, _L],
+                                Union[_L, int])] for _L in (_C, _S)]
+            _SCALAR_FAMILIES[(_fl, _k, _m)] = _fam
+
+
+def _scalar_family(flavour, kind, fa, fb, fc, fs, fm):
+    mask = 0
+    for i, f in enumerate((fa, fb, fc, fs, fm)):
+        if f:
+            mask += 1 << i
+    for fl in ('str', 'enum'):
+        for m in range(32):
+            if mask == m and flavour == fl:
+                return _SCALAR_FAMILIES[(fl, kind, m)]
+    raise AssertionError
+
+
+def _scalar_expected(kind, target, fa, fb, fc, fs):
+    chain = pick([['A'], ['A', 'B'], ['A', 'B', 'C'], ['A', 'S']], target)
+    has = {'A': fa, 'B': fb, 'C': fc, 'S': fs}
+    return [(kind, n, n) for n in chain if has[n]]
+
+
+def _scalar_sweeten(enum_flavour, fa, fb, fc, fs, fm, target, pos):
+    flavour = 'enum' if enum_flavour else 'str'
+    if enum_flavour and target < 2:
+        return True                 # member-less enums have no values
+    fam = _scalar_family(flavour, 'sweeten', fa, fb, fc, fs, fm)
+    A, B, C, S, M = fam['classes']
+    if enum_flavour:
+        obj = C.c2 if target == 2 else S.s1
+    else:
+        obj = pick([A, B, C, S], target)('txt')
+    val = pick([lambda: obj, lambda: [obj], lambda: {'k': obj},
+                lambda: [5, obj]], pos)()
+    del TRACE[:]
+    try:
+        text = fam['dumps'](val)
+    except Exception as e:   # noqa
+        if not SYMBOLIC:
+            note(raised='%s: %s' % (type(e).__name__, e))
+        return False
+    hooks = [e for e in TRACE if e[0] == 'sweeten']
+    want = _scalar_expected('sweeten', target, fa, fb, fc, fs)
+    if not SYMBOLIC:
+        note(hook='sweeten', flavour=flavour,
+             object=['A', 'B', 'C', 'S'][target], position=pos, trace=hooks,
+             expected=want, text=text)
+    return hooks == want
+
+
+def scalar_sweeten(enum_flavour: bool, fa: bool, fb: bool, fc: bool, fs: bool,
+                   fm: bool, target: int, pos: int) -> bool:
+    """
+    pre: 0 <= target < 4 and 0 <= pos < 4
+    post: __return__
+    """
+    return _scalar_sweeten(enum_flavour, fa, fb, fc, fs, fm, target, pos)
+
+
+def _scalar_savorize(enum_flavour, fa, fb, fc, fs, fm, target, pos):
+    flavour = 'enum' if enum_flavour else 'str'
+    if target < 2:
+        return True                 # only the leaf classes C and S load
+    fam = _scalar_family(flavour, 'savorize', fa, fb, fc, fs, fm)
+    if enum_flavour:
+        node = scalar(T_STR, 'c2' if target == 2 else 's1')
+    else:
+        node = scalar(T_STR, 'txt')
+    tree = pick([lambda: node, lambda: seq([node]),
+                 lambda: mapping([(scalar(T_STR, 'k'), node)]),
+                 lambda: node], pos)()
+    del TRACE[:]
+    try:
+        v = load_tree(pick(pick(fam['load'], target - 2), pos), tree)
+        outcome = 'ok'
+    except Exception as e:   # noqa
+        outcome = type(e).__name__
+    hooks = [e for e in TRACE if e[0] == 'savorize']
+    want = _scalar_expected('savorize', target, fa, fb, fc, fs)
+    if not SYMBOLIC:
+        note(hook='savorize', flavour=flavour,
+             document_denotes=['A', 'B', 'C', 'S'][target], position=pos,
+             outcome=outcome, trace=hooks, expected=want)
+    return outcome == 'ok' and hooks == want
+
+
+def scalar_savorize(enum_flavour: bool, fa: bool, fb: bool, fc: bool,
+                    fs: bool, fm: bool, target: int, pos: int) -> bool:
+    """
+    pre: 0 <= target < 4 and 0 <= pos < 4
+    post: __return__
+    """
+    return _scalar_savorize(enum_flavour, fa, fb, fc, fs, fm, target, pos)
+
+
 CONDITIONS = [
     {'fn': 'savorize', 'slices': [0, 1, 2, 3, 4], 'quick': 400,
      'thorough': 900,
@@ -347,6 +522,17 @@ CONDITIONS = [
               'document denoting A/B/C/S/X x 5 positions: every call has cls '
               '== the defining class, the mix-in\'s is never called, the '
               'document loads'},
+    {'fn': 'scalar_sweeten', 'quick': 200, 'thorough': 400,
+     'bound': 'classes written as scalars: a UserString hierarchy A <- B <- '
+              'C(+ unregistered mix-in), sibling S, and an Enum hierarchy '
+              '(member-less A <- B, members on C(M, B) and S(A)); all 2^5 '
+              'subsets defining _yatiml_sweeten x object of each class x 4 '
+              'positions: trace == base-first own-body hooks of the '
+              'registered chain, each once, never the mix-in\'s'},
+    {'fn': 'scalar_savorize', 'quick': 200, 'thorough': 400,
+     'bound': 'the same families with _yatiml_savorize, documents denoting '
+              'the leaf classes C and S at 4 positions whose type names that '
+              'class'},
     {'fn': 'sweeten', 'quick': 110, 'thorough': 300,
      'bound': 'all 2^5 subsets of classes defining _yatiml_sweeten x object '
               'of class A/B/C/S/X x 5 positions: trace == base-first own-body '
